@@ -23,6 +23,14 @@ BOUNDS = {"quick": dict(N=3, rows="<= 5"), "thorough": dict(N=4, rows="<= 7")}
 OUTSIDE = ["integer-valued times passed as python ints are indices by design (a[2] is the third row, not t=2)", "IEEE ties"]
 
 
+ASSUMPTIONS = list(ASSUMPTIONS) + [
+    "three-legs instances: two intermediate targets, every leg longer than one and shorter than two steps (the landing steps of the first two legs are interior rows); "
+    "the time-lookup three-leg instance is explored within its wall budget only (reported as not exhaustive)",
+    "lookups-in-callback instances: a callback does a time lookup (symbolic q_cb) and a whole-run slice after every step",
+    "integer indices are tried as python int, numpy int64 / int32 / intp and (non-negative) uint8",
+]
+
+
 def instances(tier):
     out = []
     N = 3 if tier == "quick" else 4
